@@ -39,6 +39,26 @@ extern "C" void vh_c18_scaling() {
     nixsym_reach("scaled");
 }
 
+// units of different base unit are rejected - for EVERY pair of base units (incl. those whose symbols differ only in case: s / S, l / L)
+extern "C" void vh_c18_reject() {
+    nixsym_declare_reach("rejected");
+    uint32_t b1 = nixsym_choice("base", 31), pw = nixsym_choice("power", 5);
+    static const int PF[4] = {0, 8, 13, 7};                                   // none, m, k, u
+    for (uint32_t b2 = 0; b2 < 31; b2++) {
+        if (b2 == b1) continue;
+        for (int i = 0; i < 4; i++) {
+            std::string a = std::string(PFX[PF[i]]) + BASE[b1] + POW[pw], b = std::string(PFX[PF[(i + 1) % 4]]) + BASE[b2] + POW[pw];
+            if (!util::isSIUnit(a) || !util::isSIUnit(b)) continue;
+            std::string pa_, ua, wa, pb_, ub, wb; util::splitUnit(a, pa_, ua, wa); util::splitUnit(b, pb_, ub, wb);
+            if (ua == ub) continue;                                              // the grammar reads the two strings as the same base unit (e.g. "mm" / "m")
+            nixsym_assert(!util::isScalable(a, b) && !util::isScalable(b, a), "units of different base units are not scalable");
+            bool threw = false; try { util::getSIScaling(a, b); } catch (const std::exception &) { threw = true; }
+            nixsym_assert(threw, "getSIScaling rejects units of different base units");
+        }
+    }
+    nixsym_reach("rejected");
+}
+
 // retrieval with positions given in a scaled unit selects the same elements as the unscaled request
 extern "C" void vh_c18_transparent() {
     nixsym_declare_reach("same");
